@@ -184,6 +184,11 @@ def transform(spec):
                 rnd.shuffle(fil["links"])
                 if fil["links"] != before:
                     applied.append("link_order")
+    if "split" in t and has_itp and t["split"] == "reverse" and not links_conflict(new) and len(new["files"]) > 1:
+        # with a polyply .itp among the files the reading order has documented side effects (R1 models them);
+        # the pair is only asserted when R1 predicts the same molecule for both orders
+        new["files"] = new["files"][::-1]
+        applied.append("file_order_with_itp")
     if "split" in t and not has_itp:
         files = []
         if t["split"] == "links_apart":
@@ -241,6 +246,16 @@ def check(spec, ctx):
     base = tables(written)
     base_text = run.text
     new_spec, applied = transform(spec)
+    if "file_order_with_itp" in applied:
+        other = mdl.expected(new_spec)
+        same = not other.invalid and not other.undetermined and \
+            mdl.expected_rows(other) == mdl.expected_rows(model) and \
+            [(a["name"], a["type"], a["charge"]) for a in other.atoms] == [(a["name"], a["type"], a["charge"]) for a in model.atoms] \
+            and other.charge_override == model.charge_override and other.edges == model.edges
+        if not same:
+            ctx.label("file_order_changes_the_modelled_molecule")
+            return
+        ctx.label("file_order_with_itp")
     history = spec["transform"].get("history", [])
     # history: unrelated runs in the same process (their own directories inside the case dir)
     for num, hspec in enumerate(history):
